@@ -187,6 +187,7 @@ class History:
                 if kind == "read_fault":
                     k, _ = sym_var("fault_k", 0, 400)
                 src1 = Src(SymBytes(s0.items), fail_at=k, cut=(kind == "read_truncated"))
+                c.notes["src1"] = src1
                 src1.on_read = frame.hook("during call 1 (read)")
                 try:
                     self.r(src1)
@@ -248,7 +249,8 @@ class History:
         a, b = c.notes["ab"]
         k = c.notes.get("fault_k")
         return {"class": shapes.class_id(self.cls), "a": shapes.to_jsonable(shapes.concretise(a, m)), "b": shapes.to_jsonable(shapes.concretise(b, m)),
-                "call1": c.notes["call1"], "fault_k": (shapes.concretise(k, m) if k is not None else None), "info": info}
+                "call1": c.notes["call1"], "fault_k": (shapes.concretise(k, m) if k is not None else None),
+                "cut": (shapes.concretise(c.notes["src1"].cut_at, m) if c.notes.get("src1") is not None and c.notes["src1"].cut_at is not None else None), "info": info}
 
 
 class _Skip(Exception):
